@@ -612,12 +612,47 @@ class World:
         self.progress += 1
         self._close_sockets(p, 'fin')
 
-    def plan_crash(self, pid, step, how='fin', cut_frac=None):
+    def plan_crash(self, pid, step, how='fin', cut_frac=None, link=None):
         self.crash_plan = {'pid': pid, 'step': step, 'how': how, 'cut_frac': cut_frac or {}}
+        if link is not None:
+            self.crash_plan['link'] = link
+
+    def _do_disconnect(self, cp):
+        """Disconnection without a crash: the connection between parties pid and link breaks while both stay alive
+        (reset by the network / a timed-out path).  Bytes in flight are cut at the chosen offsets; then, per `how`,
+        both ends see a reset ('rst'), neither end ever sees anything again ('silent'), or pid's end is reset while
+        the other end stalls ('half')."""
+        a, b = cp['pid'], cp['link']
+        conns = [c for c in self.net.conns if {c.client, c.server} == {a, b}]
+        if not conns or not (self.parties[a].alive or self.parties[b].alive):
+            cp['noop'] = True
+            return
+        cuts = {}
+        for conn in conns:
+            for pipe in (conn.c2s, conn.s2c):
+                fr = cp['cut_frac'].get(str(pipe.dst), cp['cut_frac'].get('*'))
+                if fr is not None and pipe.buf:
+                    c = min(len(pipe.buf), int(fr) if fr >= 1 else int(len(pipe.buf) * fr))
+                    if c < len(pipe.buf):
+                        del pipe.buf[c:]
+                        self.stats['crash_cut_midstream'] += 1
+                    cuts[f'{pipe.src}>{pipe.dst}'] = c
+                if pipe.fin or pipe.rst:
+                    continue
+                if cp['how'] == 'rst' or (cp['how'] == 'half' and pipe.dst == a):
+                    pipe.rst = True
+                else:
+                    pipe.cut = True
+        cp['at_step'] = self.steps
+        cp['inflight_at_crash'] = cuts
+        self.stats['disconnect_' + cp['how']] += 1
 
     def _do_crash(self):
         cp = self.crash_plan
         cp['done'] = True
+        if cp.get('link') is not None:
+            self._do_disconnect(cp)
+            return
         p = self.parties[cp['pid']]
         if not p.alive:
             cp['noop'] = True
